@@ -60,6 +60,7 @@ def run(ctx):
                 drop_edges.append((b.id, ne))
     chk.ob('F1', 'filter-result-tested', bool(drop_edges), calls[0].where(), F.name,
            'the result of %s is not compared with SNOOPY_FILTER_DROP/PASS' % CALL)
+    var_returns = []
     for i, r in enumerate(rets):
         v = strip(r.ch[0]).get('v') if r.ch else None
         if v == drop:
@@ -74,14 +75,30 @@ def run(ctx):
         elif v == pas:
             chk.ob('F1', 'other-exit-passes[%d]' % i, True, r.where(), F.name, how='returns SNOOPY_FILTER_PASS')
         else:
-            chk.ob('F1', 'return-is-a-decision[%d]' % i, False, r.where(), F.name,
-                   '%s is neither SNOOPY_FILTER_PASS nor SNOOPY_FILTER_DROP' % render(r))
+            # one exit with a result variable: follow the constants along the paths.  Without a DROP edge crossed the
+            # value must be PASS; behind a DROP edge it must be DROP (judged below, a-drop-is-final)
+            is_r = lambda e, r=r: e.id == r.id
+            paths = common.explore_paths(F, (F.entry, 0), {}, is_r, with_env=True,
+                                         edge_ok=lambda b, si: (b.id, si) not in drop_edges)
+            if paths is None:
+                raise AnalysisBroken('%s returns %s and its paths are too many to follow' % (F.name, render(r)))
+            vals = {common.const_eval(x.ch[0], env) for ev in paths for x, env in ev}
+            chk.ob('F1', 'return-is-a-decision[%d]' % i, bool(vals) and vals <= {pas}, r.where(), F.name,
+                   '%s yields %s on paths on which no filter returned DROP: it must be SNOOPY_FILTER_PASS there' % (
+                       render(r), sorted(str(v) for v in vals)),
+                   how='the result variable holds SNOOPY_FILTER_PASS on every path without a DROP verdict')
+            var_returns.append(r)
     # a PASS exit must not be reachable from a DROP edge
     bad = []
     for bid, si in drop_edges:
         visited, _ = common.reach_from_edge(F, F.blocks[bid], si)
         for r in rets:
             if strip(r.ch[0]).get('v') != drop and C.cfg_elem_of(F, r).id in visited:
+                if r in var_returns:
+                    paths = common.explore_paths(F, (F.entry, 0), {}, lambda e, r=r: e.id == r.id, with_env=True,
+                                                 after_edge=(bid, si))
+                    if paths is not None and all(common.const_eval(x.ch[0], env) == drop for ev in paths for x, env in ev):
+                        continue        # behind this DROP edge the result variable holds DROP at the exit
                 bad.append(r)
     chk.ob('F1', 'a-drop-is-final', not bad, bad[0].where() if bad else F.where(), F.name,
            'after a filter returned DROP the chain can still return %s' % (render(bad[0]) if bad else ''),
